@@ -3,7 +3,7 @@ from .common import *
 from .pxcommon import *
 
 ID = "C08"
-PROPS_FILES = ["Props/C08"]
+PROPS_FILES = ["Props/C08", "Props/C08Highp"]
 FRAGMENTS = []
 ALL_FRAGMENTS = True
 TRUSTED = [
